@@ -16,9 +16,9 @@ Work is split into chunks = (document, configuration, first line of the
 order); every chunk recomputes the baseline (the identity order) itself, so
 chunks are independent and the result does not depend on the pool size.
 """
-import os, shutil, tempfile, itertools, math
+import os, sys, json, shutil, tempfile, itertools, math, subprocess
 import gfapy
-from .runner import guard, timed_out, HarnessTimeout
+from .runner import guard, timed_out, HarnessTimeout, REPO, VERIF
 
 ENTRIES = ("list", "inc", "file", "objs")
 BUILD_BUDGET_S = 10.0
@@ -189,3 +189,41 @@ def standalone(entry, lines, version=None, vlevel=1, dialect="standard",
 def fmt(lines):
   """One-line rendering of a document / order for keys and samples."""
   return " | ".join(l.replace("\t", " ") for l in lines)
+
+
+# ---------------------------------------------------------------------------
+# hash-seed cross-check (DESIGN 2.5): a fixed slice of the exploration is
+# re-executed in fresh interpreters with other PYTHONHASHSEED values; the
+# check module provides slice_cases() -> {case: digest}
+# ---------------------------------------------------------------------------
+def spawn_slices(modname, seeds=(1, 2)):
+  code = ("import sys, json; sys.path.insert(0, {!r}); sys.path.insert(0, {!r});"
+          " import gfapy; from gfamc.checks import {} as m;"
+          " print(json.dumps(m.slice_cases(), sort_keys=True))").format(
+              VERIF, REPO, modname)
+  procs = []
+  for sd in seeds:
+    env = dict(os.environ, PYTHONHASHSEED=str(sd), PYTHONDONTWRITEBYTECODE="1")
+    procs.append((sd, subprocess.Popen([sys.executable, "-c", code],
+                                       stdout=subprocess.PIPE,
+                                       stderr=subprocess.PIPE, text=True,
+                                       env=env, cwd=VERIF)))
+  return procs
+
+
+def collect_slices(procs, own):
+  """Returns (summary dict, list of (seed, case, own digest, other digest))."""
+  diffs = []
+  summary = {"seeds": [], "cases": len(own), "differences": 0}
+  for sd, p in procs:
+    out, err = p.communicate(timeout=900)
+    if p.returncode != 0:
+      raise RuntimeError("hash-seed slice (seed {}) failed: {}".format(
+          sd, err[-500:]))
+    other = json.loads(out.strip().split("\n")[-1])
+    summary["seeds"].append(sd)
+    for case in sorted(set(own) | set(other)):
+      if own.get(case) != other.get(case):
+        diffs.append((sd, case, own.get(case), other.get(case)))
+  summary["differences"] = len(diffs)
+  return summary, diffs
